@@ -296,8 +296,8 @@ pub fn run(ctx: &RunCtx) -> i32 {
         LoopCfg { host: HostCfg::None, vhost: false, auth: true, hops: 1 },
         LoopCfg { host: HostCfg::None, vhost: false, auth: false, hops: 2 },
     ];
-    let n_random = ctx.tier.sz(320, 40_000);
-    let sys_reps = ctx.tier.sz(6, 80);
+    let n_random = ctx.tier.sz(1500, 40_000);
+    let sys_reps = ctx.tier.sz(16, 80);
     let total = par_run(ctx.workers, ops.len() as u64, |j, r| {
         let rt = new_runtime();
         let info = ops[j as usize];
